@@ -136,7 +136,13 @@ def run_check(pid, spec, tier, seed, nshards=None):
     results = []
     for leg in legs:
         fn = LEG_KINDS[leg.get("kind", "shards")]
-        results.append(fn(pid, spec, leg, tier, seed, nshards) if leg.get("kind", "shards") == "shards" else fn(pid, spec, leg, tier, seed))
+        k = leg.get("kind", "shards")
+        if k == "shards":
+            results.append(fn(pid, spec, leg, tier, seed, nshards))
+        elif k == "xcfg":
+            results.append(fn(pid, spec, leg, tier, seed, results))
+        else:
+            results.append(fn(pid, spec, leg, tier, seed))
 
     evaluations = 0
     nontrivial = set()
@@ -264,6 +270,9 @@ def do_replay(pid, spec, path):
         rp = json.load(f)
     v = rp["violation"]
     cmd = v.get("replay_cmd")
+    if cmd == "WHOLE" or spec.get("replay_whole"):
+        # deterministic in (tier, seed): the whole check is the replay
+        return run_check(pid, spec, rp.get("tier", "quick"), int(rp.get("seed", 1)))
     if not cmd:
         print("no replay command recorded in", path)
         return 64
@@ -290,3 +299,117 @@ def do_replay(pid, spec, path):
         return 1
     print("replay did not reproduce kind %s (%d other violations)" % (v.get("kind"), len(r.get("violations", []))))
     return 0
+
+
+def leg_c06(pid, spec, leg, tier, seed):
+    """Generated type programs: generate -> cargo build -> run the part binaries."""
+    import sys as _sys
+    L = Leg("c06-programs")
+    crate = os.path.join(common.OUT, pid, tier, "crate")
+    os.makedirs(crate, exist_ok=True)
+    parts = 16
+    t0 = time.time()
+    g = subprocess.run([_sys.executable, os.path.join(common.ROOT, "harness-c06", "gen_c06.py"), "--seed", str(seed), "--tier", tier, "--out", crate, "--parts", str(parts)],
+                       stdout=subprocess.PIPE, stderr=subprocess.STDOUT, text=True)
+    if g.returncode != 0:
+        L.inconclusive.append("generator failed: " + g.stdout[-400:])
+        return L
+    env = dict(common.BASE_ENV)
+    tdir = os.path.join(common.ROOT, "target-c06")
+    env["CARGO_TARGET_DIR"] = tdir
+    b = subprocess.run(["cargo", "build", "--release", "--offline"], cwd=crate, env=env, stdout=subprocess.PIPE, stderr=subprocess.STDOUT, text=True)
+    if b.returncode != 0:
+        # the generated programs only use the documented constructors: a compile error is a
+        # harness/generator problem or an API change, never a verdict
+        L.inconclusive.append("generated crate does not build: " + "\n".join(b.stdout.splitlines()[-15:]))
+        return L
+    L.info["build_s"] = round(time.time() - t0, 2)
+    L.info["types_generated"] = int(g.stdout.strip().splitlines()[-1])
+    outdir = os.path.join(common.OUT, pid, tier)
+    cmds, outs = [], []
+    for k in range(parts):
+        o = os.path.join(outdir, "part_%d.json" % k)
+        if os.path.exists(o):
+            os.remove(o)
+        cmds.append([os.path.join(tdir, "release", "g%d" % k), "--seed", str(seed), "--part", str(k), "--out", o])
+        outs.append(o)
+    res = _run_procs(cmds, 600, env=env)
+    for k, r in enumerate(res):
+        rc, dt, to, tail = r
+        if to or rc != 0 or not os.path.exists(outs[k]):
+            L.crashes.append({"cmd": " ".join(cmds[k]), "rc": rc, "first_rc": rc, "tail": tail[-800:]})
+            continue
+        with open(outs[k]) as f:
+            rep = json.load(f)
+        for v in rep.get("violations", []):
+            v["replay_cmd"] = "WHOLE"
+        L.reports.append(rep)
+    L.info["wall_s"] = round(time.time() - t0, 2)
+    L.info["build"] = "c06"
+    return L
+
+
+register_leg_kind("c06", leg_c06)
+
+
+def _tables(L):
+    t = {}
+    for r in L.reports:
+        key = (r.get("shard"), r.get("nshards"))
+        for row in r.get("table", []):
+            t[(key, row[0])] = (row[1], row[2])
+    return t
+
+
+def leg_xcfg(pid, spec, leg, tier, seed, prior):
+    """Cross-process / cross-configuration comparison: the same cases are re-run with --dump in a
+    second process of the main build and in the build without the `parallel` feature; the recorded
+    (plan hash, result hash) rows must agree with each other and with the main leg's rows."""
+    L = Leg(leg.get("name", "xcfg"))
+    base = None
+    for p in prior:
+        if p.name == leg.get("against", "main"):
+            base = p
+    tabs = {}
+    for kind in leg.get("builds", ["main", "nopar"]):
+        sub = dict(leg)
+        sub.update({"kind": "shards", "build": kind, "name": "%s-%s" % (L.name, kind), "args": ["--dump"] + leg.get("args", []), "optional": kind != "main"})
+        R = leg_shards(pid, spec, sub, tier, seed)
+        L.inconclusive += R.inconclusive
+        L.crashes += R.crashes
+        L.info[kind] = R.info
+        for r in R.reports:
+            # the dump runs contribute no cases of their own; only their tables are used
+            r["evaluations"] = 0
+            r["nontrivial"] = []
+            r["samples"] = []
+        if R.reports:
+            tabs[kind] = _tables(R)
+    if base is not None:
+        tabs["main-leg"] = _tables(base)
+    names = sorted(tabs)
+    compared = 0
+    what = leg.get("what", "result")
+    for i in range(len(names)):
+        for j in range(i + 1, len(names)):
+            a, b = tabs[names[i]], tabs[names[j]]
+            for k in a:
+                if k in b:
+                    compared += 1
+                    if a[k][0] != b[k][0]:
+                        L.inconclusive.append("generator not reproducible across %s / %s for case %s (harness problem)" % (names[i], names[j], k))
+                        break
+                    if a[k][1] != b[k][1]:
+                        (sh, nsh), case = k
+                        L.violations.append({
+                            "kind": "%s_differs_across:%s/%s" % (what, names[i], names[j]),
+                            "msg": "case %s of shard %s/%s: %s hash %s in %s but %s in %s (same registration sequence, plan hash %s)" % (case, sh, nsh, what, a[k][1], names[i], b[k][1], names[j], a[k][0]),
+                            "replay_cmd": "WHOLE",
+                        })
+                        break
+    L.info["rows_compared"] = compared
+    L.info["configurations"] = names
+    return L
+
+
+register_leg_kind("xcfg", leg_xcfg)
